@@ -111,13 +111,13 @@ func init() {
 		"(*strings.Builder).Reset":       extBuilderReset,
 		"(*strings.Builder).Grow":        extNop,
 
-		"os.Getenv":          extOsGetenv,
-		"runtime.GC":         extNop,
-		"runtime.Gosched":    extNop,
-		"runtime.GOMAXPROCS": func(fr *frame, args []value) value { return 1 },
-		"runtime.NumCPU":     func(fr *frame, args []value) value { return 1 },
-		"runtime.Callers":    func(fr *frame, args []value) value { return 0 },
-		"runtime.KeepAlive":  extNop,
+		"os.Getenv":            extOsGetenv,
+		"runtime.GC":           extNop,
+		"runtime.Gosched":      extNop,
+		"runtime.GOMAXPROCS":   func(fr *frame, args []value) value { return 1 },
+		"runtime.NumCPU":       func(fr *frame, args []value) value { return 1 },
+		"runtime.Callers":      func(fr *frame, args []value) value { return 0 },
+		"runtime.KeepAlive":    extNop,
 		"runtime.SetFinalizer": extNop,
 
 		"(*sync.Mutex).Lock":      extNop,
